@@ -17,8 +17,10 @@ ValidSubsets(U) == {F \in SUBSET U : ValidFlags(F)}
 U_flow == IF Quick THEN {"MINIMALDATA", "DISCOURAGE_UPGRADABLE_NOPS", "P2SH", "WITNESS", "CLEANSTACK", "SIGPUSHONLY"}
           ELSE {"MINIMALDATA", "DISCOURAGE_UPGRADABLE_NOPS", "MINIMALIF", "P2SH", "WITNESS", "CLEANSTACK", "SIGPUSHONLY"}
 U_lock == {"CHECKLOCKTIMEVERIFY", "CHECKSEQUENCEVERIFY", "MINIMALDATA", "DISCOURAGE_UPGRADABLE_NOPS"}
-U_sig == {"DERSIG", "LOW_S", "STRICTENC", "NULLFAIL", "WITNESS_PUBKEYTYPE", "CONST_SCRIPTCODE"}
-U_msig == {"NULLDUMMY", "NULLFAIL", "STRICTENC", "DERSIG", "MINIMALDATA", "CONST_SCRIPTCODE"}
+U_sig == IF Quick THEN {"DERSIG", "LOW_S", "STRICTENC", "NULLFAIL", "CONST_SCRIPTCODE"}
+         ELSE {"DERSIG", "LOW_S", "STRICTENC", "NULLFAIL", "WITNESS_PUBKEYTYPE", "CONST_SCRIPTCODE"}
+U_msig == IF Quick THEN {"NULLDUMMY", "NULLFAIL", "STRICTENC", "DERSIG", "CONST_SCRIPTCODE"}
+          ELSE {"NULLDUMMY", "NULLFAIL", "STRICTENC", "DERSIG", "MINIMALDATA", "CONST_SCRIPTCODE"}
 U_verify == IF Quick THEN {"P2SH", "WITNESS", "CLEANSTACK", "SIGPUSHONLY", "NULLFAIL", "MINIMALIF"}
             ELSE {"P2SH", "WITNESS", "CLEANSTACK", "SIGPUSHONLY", "NULLFAIL", "MINIMALIF", "WITNESS_PUBKEYTYPE", "DISCOURAGE_UPGRADABLE_WITNESS_PROGRAM"}
 U_tap == IF Quick THEN {"P2SH", "WITNESS", "TAPROOT", "DISCOURAGE_OP_SUCCESS", "DISCOURAGE_UPGRADABLE_TAPROOT_VERSION", "DISCOURAGE_UPGRADABLE_PUBKEYTYPE"}
@@ -30,7 +32,7 @@ EvalCase(st0, sc, post) == VCase(Flat([i \in 1..Len(st0) |-> MinPush(st0[i])]), 
 Posts == {<<>>, <<OP_1>>}
 
 InitSFFlow == \E p \in SeqsUpTo(FlowToks \cup {PD(1, <<1>>), <<OP_NOP4>>, <<OP_NOP10>>}, 1, IF Quick THEN 2 ELSE 3), post \in Posts, a \in {<<>>, <<OP_1>>, <<1, 1>>, <<OP_1, OP_NOP>>} :
-                 (Quick /\ Len(p) = 2 => post = <<OP_1>> /\ a \in {<<>>, <<1, 1>>}) /\ Start(<<"flow", VCase(a, Flat(p) \o post, <<>>, <<>>), NoTx>>)
+                 (Quick /\ Len(p) = 2 => post = <<OP_1>> /\ a = <<>> /\ p[1] \in FlowToksQ \cup {PD(1, <<1>>), <<OP_NOP4>>, <<OP_NOP1>>}) /\ Start(<<"flow", VCase(a, Flat(p) \o post, <<>>, <<>>), NoTx>>)
 InitSFLock ==
   \/ \E v \in LockVals, lk \in TxLocks, sq \in {SeqFinal, <<>>} : Start(<<"lock", EvalCase(<<>>, MinPush(v) \o <<OP_CHECKLOCKTIMEVERIFY>>, <<>>), [lock |-> lk, seq |-> sq, ver |-> 1]>>)
   \/ \E v \in LockVals, sq \in TxSeqs, ver \in {1, 2} : Start(<<"lock", EvalCase(<<>>, MinPush(v) \o <<OP_CHECKSEQUENCEVERIFY>>, <<>>), [lock |-> <<>>, seq |-> sq, ver |-> ver]>>)
@@ -51,9 +53,11 @@ InitSFMsig ==
         Start(<<"msig", EvalCase((IF m = 2 THEN <<<<>>, s1, s2>> ELSE <<<<>>, s2>>), NumPush(m) \o PushCanon(k1) \o PushCanon(k2) \o NumPush(2) \o tail, <<>>), NoTx>>)
   \/ \E nn \in {<<1, 2>>, <<2, 2, 0>>}, mm \in {<<OP_0>>, <<1, 0>>, <<1, 1>>, <<2, 1, 0>>} :
         Start(<<"msig", EvalCase(<<<<>>, SigGood(2, 0)>>, mm \o MKeys(2) \o nn \o <<OP_CHECKMULTISIG>>, <<>>), NoTx>>)
-InitSFVerify == \E c \in VerifyCases : Start(<<"verify", c, NoTx>>)
-InitSFTap == \E c \in TapCases \cup {w \in WeightCases : Len(w.w[1]) % 7 = 0} : Start(<<"tap", c, NoTx>>)
-InitSF == InitSFFlow \/ InitSFLock \/ InitSFSig \/ InitSFMsig \/ InitSFVerify \/ InitSFTap
+\* (quick: no junk witness on the non-witness cases, no taproot cases with extra witness elements)
+InitSFVerify == \E c \in VerifyCases : (Quick => c \in V0Cases \/ c.w = <<>>) /\ Start(<<"verify", c, NoTx>>)
+InitSFTap == \E c \in TapCases \cup {w \in WeightCases : Len(w.w[1]) % 7 = 0} : (Quick => Len(c.w) <= 3) /\ Start(<<"tap", c, NoTx>>)
+InitSFRest == InitSFLock \/ InitSFSig \/ InitSFMsig \/ InitSFVerify \/ InitSFTap
+InitSF == InitSFFlow \/ InitSFRest
 
 SFRow(c) ==
   LET fam == c[1]  cs == c[2]  tx == c[3]
